@@ -3,6 +3,7 @@ CONSTANTS
   Locked = FALSE
   Bodies <- BodiesOne
   Modes <- OnlyAnsi
+  Seconds <- NoSecond
   TickMs <- Ticks1
   MaxTicks = 2
   MaxPre = 0
